@@ -1,4 +1,6 @@
 import WK.Proofs.Repl_Owner
+import WK.Proofs.C03_Ledger
+import WK.Theorems.C02
 /-
   C03 — append receipts are exact, contiguous and retry-stable.
   Theorems about the sequencer part of the model the C03 driver executes
@@ -229,5 +231,138 @@ theorem c03_evict_sound (cap : Nat) (l : List (Cmd × Retained)) (r : Retained) 
 
 example : remember 1 [(.biz 1, ⟨⟨Manifest.zero, [], 0⟩, 1, 1, none⟩)] ⟨⟨{ Manifest.zero with cmd := .biz 2 }, [], 0⟩, 2, 2, none⟩
     = [(.biz 2, ⟨⟨{ Manifest.zero with cmd := .biz 2 }, [], 0⟩, 2, 2, none⟩)] := by decide
+
+end WK.C03
+
+/-! ## history level (one owner incarnation) -/
+namespace WK.C03
+open WK WK.Repl
+
+theorem pairwise_cmd_eq : ∀ (l : List PRec), l.Pairwise (fun p q => p.m.cmd ≠ q.m.cmd) →
+    ∀ p ∈ l, ∀ q ∈ l, p.m.cmd = q.m.cmd → p = q := by
+  intro l
+  induction l with
+  | nil => intro _ p hp; cases hp
+  | cons x rest ih =>
+    intro hpw p hp q hq he
+    rw [List.pairwise_cons] at hpw
+    rcases List.mem_cons.mp hp with rfl | hp' <;> rcases List.mem_cons.mp hq with rfl | hq'
+    · rfl
+    · exact absurd he (hpw.1 q hq')
+    · exact absurd he.symm (hpw.1 p hp')
+    · exact ih hpw.2 p hp' q hq' he
+
+theorem ownerInv_of_empty (ch : QChan) (st : Store) (h1 : ch.retained = []) (h2 : ch.pending = none) : OwnerInv ch st :=
+  ⟨fun x hx => (by rw [h1] at hx; cases hx), fun r h => (by rw [h2] at h; cases h)⟩
+
+/-- **c03_receipts_backed** — inside one owner incarnation of node `i` (any commits on any node with
+    any per-voter answers, follower repairs, crashes/restarts of other nodes; no install, no reset of
+    `i`), starting right after an install (empty cache, nothing pending): EVERY receipt the owner
+    returns — fresh, pending retry, cached, or via the durable command index after eviction — is
+    backed in the owner's final local log by one stored proposal of that command with exactly that
+    range, and no proposal ever leaves that log. -/
+theorem c03_receipts_backed (i : Nat) (s : Sys) (ch : QChan) (ops : List Op)
+    (hseg : ∀ op ∈ ops, segOp i op = true) (hch : chanOf s i = some (some ch))
+    (h1 : ch.retained = []) (h2 : ch.pending = none) :
+    ∀ rc ∈ receiptsOn i s ops, Backed ((Repl.runS s ops).storeOf i) rc :=
+  (run_seg i ops s ch hseg hch (ownerInv_of_empty ch _ h1 h2)).2
+
+/-- **c03_disjoint** — two receipts of DIFFERENT commands handed out in one owner incarnation never
+    overlap (whatever the interleaving of new commands, retries, evictions, lost replies), given the
+    owner's final log is a proposal chain (c02_store_inv: true in every reachable state). -/
+theorem c03_disjoint (i : Nat) (s : Sys) (ch : QChan) (ops : List Op)
+    (hseg : ∀ op ∈ ops, segOp i op = true) (hch : chanOf s i = some (some ch))
+    (h1 : ch.retained = []) (h2 : ch.pending = none) (hchain : ChainP ((Repl.runS s ops).storeOf i).props) :
+    ∀ r1 ∈ receiptsOn i s ops, ∀ r2 ∈ receiptsOn i s ops, r1.cmd ≠ r2.cmd →
+      r1.last < r2.first ∨ r2.last < r1.first := by
+  intro r1 hr1 r2 hr2 hne
+  obtain ⟨p1, hp1, c1, f1, l1⟩ := c03_receipts_backed i s ch ops hseg hch h1 h2 r1 hr1
+  obtain ⟨p2, hp2, c2, f2, l2⟩ := c03_receipts_backed i s ch ops hseg hch h1 h2 r2 hr2
+  have hpne : p1 ≠ p2 := fun e => hne (by rw [← c1, ← c2, e])
+  rcases chain_disjoint hchain p1 hp1 p2 hp2 hpne with h | h <;> omega
+
+/-- **c03_retry_same (history)** — within one owner incarnation, every receipt for the same command
+    is the same range, through cache hits, pending retries AND evictions (command-index path), given
+    stored commands are unique (c03_cmd_uniq: true in every reachable state). -/
+theorem c03_retry_same_history (i : Nat) (s : Sys) (ch : QChan) (ops : List Op)
+    (hseg : ∀ op ∈ ops, segOp i op = true) (hch : chanOf s i = some (some ch))
+    (h1 : ch.retained = []) (h2 : ch.pending = none) (hu : CmdUniq ((Repl.runS s ops).storeOf i)) :
+    ∀ r1 ∈ receiptsOn i s ops, ∀ r2 ∈ receiptsOn i s ops, r1.cmd = r2.cmd →
+      r1.first = r2.first ∧ r1.last = r2.last := by
+  intro r1 hr1 r2 hr2 he
+  obtain ⟨p1, hp1, c1, f1, l1⟩ := c03_receipts_backed i s ch ops hseg hch h1 h2 r1 hr1
+  obtain ⟨p2, hp2, c2, f2, l2⟩ := c03_receipts_backed i s ch ops hseg hch h1 h2 r2 hr2
+  have : p1 = p2 := pairwise_cmd_eq _ hu p1 hp1 p2 hp2 (by rw [c1, c2, he])
+  subst this
+  omega
+
+end WK.C03
+
+/-! ## reachable states -/
+namespace WK.C03
+open WK WK.Repl
+
+theorem cmdUniq_empty : CmdUniq Store.empty := List.Pairwise.nil
+
+theorem allUniq_init (n q cap : Nat) (st : Bool) : ∀ v, CmdUniq (({ Sys.init n q cap with started := st } : Sys).storeOf v) := by
+  intro v
+  unfold Sys.storeOf Sys.node?
+  by_cases hv : v = 0
+  · simp [hv]; exact cmdUniq_empty
+  · simp only [hv, if_false]
+    cases h : (mkNodes n)[v - 1]? with
+    | none => simp [Sys.init, h]; exact cmdUniq_empty
+    | some nd => simp [Sys.init, h]; rw [C02.node?_mkNodes_store n (v - 1) nd h]; exact cmdUniq_empty
+
+theorem cmdUniq_step (s : Sys) (op : Op) (h : ∀ v, CmdUniq (s.storeOf v)) : ∀ v, CmdUniq ((step s op).1.storeOf v) := by
+  by_cases hc : ∃ n q c, op = .cfg n q c
+  · obtain ⟨n, q, c, rfl⟩ := hc
+    simp only [step]
+    split
+    · exact h
+    · exact allUniq_init n q c true
+  · have hne : ∀ n q c, op ≠ .cfg n q c := fun n q c e => hc ⟨n, q, c, e⟩
+    rw [C02.step_started s op hne]
+    intro v
+    exact step_stores uniqRel_rel { s with started := true } op rfl v (h v)
+
+/-- **c03_cmd_uniq** — in every reachable state no replica log stores two proposals of one command -/
+theorem c03_cmd_uniq (ops : List Op) (v : Nat) : CmdUniq ((Repl.runS Sys.default ops).storeOf v) := by
+  suffices h : ∀ s, (∀ v, CmdUniq (s.storeOf v)) → ∀ v, CmdUniq ((Repl.runS s ops).storeOf v) from
+    h _ (allUniq_init 3 2 2 false) v
+  induction ops with
+  | nil => intro s h; exact h
+  | cons op ops ih => intro s h; exact ih _ (cmdUniq_step s op h)
+
+theorem runS_append (s : Sys) (a b : List Op) : Repl.runS s (a ++ b) = Repl.runS (Repl.runS s a) b := by
+  unfold Repl.runS; rw [List.foldl_append]
+
+/-- **c03_disjoint_reachable / c03_retry_same_reachable** — for every reachable state `runS default pre`
+    whose owner `i` has an empty cache and nothing pending (the state every install leaves), and every
+    continuation without install / reset of `i`: receipts of different commands are disjoint, receipts
+    of one command are equal.  No further hypothesis. -/
+theorem c03_history_reachable (i : Nat) (pre ops : List Op) (ch : QChan)
+    (hseg : ∀ op ∈ ops, segOp i op = true) (hch : chanOf (Repl.runS Sys.default pre) i = some (some ch))
+    (h1 : ch.retained = []) (h2 : ch.pending = none) :
+    ∀ r1 ∈ receiptsOn i (Repl.runS Sys.default pre) ops, ∀ r2 ∈ receiptsOn i (Repl.runS Sys.default pre) ops,
+      (r1.cmd ≠ r2.cmd → r1.last < r2.first ∨ r2.last < r1.first) ∧
+      (r1.cmd = r2.cmd → r1.first = r2.first ∧ r1.last = r2.last) := by
+  intro r1 hr1 r2 hr2
+  have hchain : ChainP ((Repl.runS (Repl.runS Sys.default pre) ops).storeOf i).props := by
+    rw [← runS_append]; exact (C02.c02_store_inv (pre ++ ops) i).chain
+  have hu : CmdUniq ((Repl.runS (Repl.runS Sys.default pre) ops).storeOf i) := by
+    rw [← runS_append]; exact c03_cmd_uniq (pre ++ ops) i
+  exact ⟨c03_disjoint i _ ch ops hseg hch h1 h2 hchain r1 hr1 r2 hr2,
+         c03_retry_same_history i _ ch ops hseg hch h1 h2 hu r1 hr1 r2 hr2⟩
+
+/-- non-vacuity: after `install 1 (1,1,1)` with cache cap 2 (default), three commands and a retry of
+    the first one AFTER its eviction: four receipts, the retry equal to the first -/
+example :
+    let pre : List Op := [.install 1 ⟨⟨1, 1, 1⟩, 2, false⟩ [.all, .all, .all] [.D, .D, .D]]
+    let ops : List Op := [.commit 1 ⟨1, 1, 1⟩ 1 2 0 [.D, .D, .X], .commit 1 ⟨1, 1, 1⟩ 2 1 0 [.D, .D, .X],
+                          .commit 1 ⟨1, 1, 1⟩ 3 1 0 [.D, .D, .X], .commit 1 ⟨1, 1, 1⟩ 1 2 0 [.D, .D, .D]]
+    (∀ op ∈ ops, segOp 1 op = true) ∧
+    (receiptsOn 1 (Repl.runS Sys.default pre) ops).map (fun r => (r.first, r.last)) = [(1, 2), (3, 3), (4, 4), (1, 2)] := by
+  decide
 
 end WK.C03
